@@ -207,6 +207,13 @@ let () =
     | _ -> "bad-args")
 
 let () =
+  reg "c07.operand" (fun a -> match a with
+    | [isrows; num; off; sheet; same; cell] ->
+      let sp = if sheet = "-" then None else Some (bytes_of_hex sheet) in
+      show_res hex_of_bytes (adjust_operand (bool_of_arg isrows) (z_of_string num) (z_of_string off) sp (bool_of_arg same) (bytes_of_hex cell))
+    | _ -> "bad-args")
+
+let () =
   reg "c17.run" (fun a ->
       let (ids, r) = run_styles (List.map z_of_string a) init_reg in
       "ids " ^ String.concat "," (List.map string_of_z ids) ^ " size " ^ string_of_int (List.length r))
